@@ -25,6 +25,9 @@ Proof.
   unfold advance. cbn [lpos lrest]. rewrite drop_app_exact. reflexivity.
 Qed.
 
+Lemma dict_fuel s0 body s2 : Lexes s0 (IWord kw_dict_open :: body ++ [IWord kw_dict_close]) s2 -> (length body + 2 <= fuel_for s0)%nat.
+Proof. intros H. pose proof (Lexes_fuel _ _ _ H) as Hf. cbn [length] in Hf. rewrite app_length in Hf. cbn [length] in Hf. lia. Qed.
+
 (** the /Length entry: a direct non-negative integer, or a reference that the resolver (asked for an integer) resolves to one —
     whichever way that integer object is stored (ordinary indirect object or member of an object stream: C11_member) *)
 Definition length_entry (R : resolver) (d : dict) (len : N) : Prop :=
@@ -82,14 +85,13 @@ Theorem parse_indirect_stream_spelled d body a b id gen :
   forall R allow s s2 s3 s4 s5 eol data rest,
     1 + ddepth d <= MAX_DEPTH ->
     Lexes s (IWord a :: IWord b :: IWord kw_obj :: IWord kw_dict_open :: body ++ [IWord kw_dict_close]) s2 ->
-    (forall s0, Lexes s0 (IWord kw_dict_open :: body ++ [IWord kw_dict_close]) s2 -> (length body + 2 <= fuel_for s0)%nat) ->
     next s2 = Ok (kw_stream, s3) -> stream_eol eol -> lrest s3 = eol ++ data ++ rest ->
     dict_get key_Length d = Some (PInt (Z.of_N (lenN data))) ->
     next_expect (mkLx (lpos s3 + lenN eol + lenN data) rest) kw_endstream = Ok s4 ->
     next_expect s4 kw_endobj = Ok s5 ->
     parse_indirect_object R allow F_ANY s = Ok (id, gen, PStream d id gen (lpos s3 + lenN eol) (lenN data), s5).
 Proof.
-  intros Hsd Hnd Ha Hb R allow s s2 s3 s4 s5 eol data rest Hd HL Hfuel Hn He Hr Hlen Hend Hobj.
+  intros Hsd Hnd Ha Hb R allow s s2 s3 s4 s5 eol data rest Hd HL Hn He Hr Hlen Hend Hobj.
   destruct (Lexes_word_inv _ _ _ _ HL) as [t1 [E1 HL1]].
   destruct (Lexes_word_inv _ _ _ _ HL1) as [t2 [E2 HL2]].
   destruct (Lexes_word_inv _ _ _ _ HL2) as [t3 [E3 HL3]].
@@ -97,7 +99,7 @@ Proof.
   unfold next_expect at 1. rewrite E3. cbn [bind]. rewrite bytes_eqb_refl. cbv iota. cbn [bind].
   unfold parse_ctx.
   rewrite (parse_stream_spelled d body Hsd Hnd (fuel_for t3) R id gen MAX_DEPTH t3 s2 s3 s4 eol data rest
-             (Hfuel t3 HL3) Hd HL3 Hn He Hr Hlen Hend).
+             (dict_fuel t3 _ _ HL3) Hd HL3 Hn He Hr Hlen Hend).
   cbn [bind]. rewrite Hobj. destruct allow; reflexivity.
 Qed.
 
@@ -106,14 +108,13 @@ Theorem parse_indirect_stream_spelled_len d body a b id gen :
   forall R allow s s2 s3 s4 s5 eol data rest,
     1 + ddepth d <= MAX_DEPTH ->
     Lexes s (IWord a :: IWord b :: IWord kw_obj :: IWord kw_dict_open :: body ++ [IWord kw_dict_close]) s2 ->
-    (forall s0, Lexes s0 (IWord kw_dict_open :: body ++ [IWord kw_dict_close]) s2 -> (length body + 2 <= fuel_for s0)%nat) ->
     next s2 = Ok (kw_stream, s3) -> stream_eol eol -> lrest s3 = eol ++ data ++ rest ->
     length_entry R d (lenN data) ->
     next_expect (mkLx (lpos s3 + lenN eol + lenN data) rest) kw_endstream = Ok s4 ->
     next_expect s4 kw_endobj = Ok s5 ->
     parse_indirect_object R allow F_ANY s = Ok (id, gen, PStream d id gen (lpos s3 + lenN eol) (lenN data), s5).
 Proof.
-  intros Hsd Hnd Ha Hb R allow s s2 s3 s4 s5 eol data rest Hd HL Hfuel Hn He Hr Hlen Hend Hobj.
+  intros Hsd Hnd Ha Hb R allow s s2 s3 s4 s5 eol data rest Hd HL Hn He Hr Hlen Hend Hobj.
   destruct (Lexes_word_inv _ _ _ _ HL) as [t1 [E1 HL1]].
   destruct (Lexes_word_inv _ _ _ _ HL1) as [t2 [E2 HL2]].
   destruct (Lexes_word_inv _ _ _ _ HL2) as [t3 [E3 HL3]].
@@ -121,7 +122,7 @@ Proof.
   unfold next_expect at 1. rewrite E3. cbn [bind]. rewrite bytes_eqb_refl. cbv iota. cbn [bind].
   unfold parse_ctx.
   rewrite (parse_stream_spelled_len d body Hsd Hnd (fuel_for t3) R id gen MAX_DEPTH t3 s2 s3 s4 eol data rest
-             (Hfuel t3 HL3) Hd HL3 Hn He Hr Hlen Hend).
+             (dict_fuel t3 _ _ HL3) Hd HL3 Hn He Hr Hlen Hend).
   cbn [bind]. rewrite Hobj. destruct allow; reflexivity.
 Qed.
 
@@ -136,11 +137,9 @@ Theorem stream_data_independent_of_length_storage d1 body1 d2 body2 a b id gen :
     1 + ddepth d1 <= MAX_DEPTH -> 1 + ddepth d2 <= MAX_DEPTH -> stream_eol eol ->
     forall s s2 s3 s4 s5 t t2 t3 t4 t5,
     Lexes s (IWord a :: IWord b :: IWord kw_obj :: IWord kw_dict_open :: body1 ++ [IWord kw_dict_close]) s2 ->
-    (forall s0, Lexes s0 (IWord kw_dict_open :: body1 ++ [IWord kw_dict_close]) s2 -> (length body1 + 2 <= fuel_for s0)%nat) ->
     next s2 = Ok (kw_stream, s3) -> lrest s3 = eol ++ data ++ rest ->
     next_expect (mkLx (lpos s3 + lenN eol + lenN data) rest) kw_endstream = Ok s4 -> next_expect s4 kw_endobj = Ok s5 ->
     Lexes t (IWord a :: IWord b :: IWord kw_obj :: IWord kw_dict_open :: body2 ++ [IWord kw_dict_close]) t2 ->
-    (forall s0, Lexes s0 (IWord kw_dict_open :: body2 ++ [IWord kw_dict_close]) t2 -> (length body2 + 2 <= fuel_for s0)%nat) ->
     next t2 = Ok (kw_stream, t3) -> lrest t3 = eol ++ data ++ rest ->
     next_expect (mkLx (lpos t3 + lenN eol + lenN data) rest) kw_endstream = Ok t4 -> next_expect t4 kw_endobj = Ok t5 ->
     exists st1 st2,
@@ -150,7 +149,7 @@ Theorem stream_data_independent_of_length_storage d1 body1 d2 body2 a b id gen :
       firstn (length data) (skipn (N.to_nat (st2 - lpos t3)) (lrest t3)) = data.
 Proof.
   intros H1 N1 H2 N2 Ha Hb R allow i g data eol rest L1 L2 HR D1 D2 He
-         s s2 s3 s4 s5 t t2 t3 t4 t5 LS F1 Ns Rs Es Os LT F2 Nt Rt Et Ot.
+         s s2 s3 s4 s5 t t2 t3 t4 t5 LS Ns Rs Es Os LT Nt Rt Et Ot.
   exists (lpos s3 + lenN eol), (lpos t3 + lenN eol). split; [|split; [|split]].
   - eapply parse_indirect_stream_spelled_len; eauto. left. exact L1.
   - eapply parse_indirect_stream_spelled_len; eauto. right. exists i, g. split; assumption.
